@@ -24,7 +24,8 @@ class Unsupported(EngineAbort):
 class Ctx(object):
     """One exploration context (one harness run = many paths)."""
 
-    def __init__(self, timeout_ms=20000, max_depth=4000, label=''):
+    def __init__(self, timeout_ms=20000, max_depth=4000, label='', logic=None):
+        self.logic = logic      # e.g. 'QF_BV' for pure bit-vector harnesses
         self.timeout_ms = timeout_ms
         self.max_depth = max_depth
         self.label = label
@@ -128,7 +129,7 @@ class Ctx(object):
 
     def solve(self, extra, full=False, timeout_ms=None):
         """check-sat of (slice of) pc plus extra; returns ('sat', model) etc."""
-        s = z3.Solver()
+        s = z3.SolverFor(self.logic) if self.logic else z3.Solver()
         s.set('timeout', timeout_ms or self.timeout_ms)
         cons = self.pc if full else self.slice_for(extra)
         for c in cons: s.add(c)
@@ -413,6 +414,11 @@ class _SNum(object):
             r = self
             for _ in range(n - 1): r = r * self
             return 1 / r if neg else r
+        # optional harness-provided contract for non-integer powers (e.g. an
+        # uninterpreted function); without one the operation is unsupported
+        hook = getattr(_ctx, 'frac_pow', None) if _ctx is not None else None
+        if hook is not None and isinstance(n, float):
+            return hook(self, n)
         raise Unsupported('pow with exponent %r' % (n,))
 
     def __rpow__(self, base):
